@@ -330,6 +330,8 @@ class PointWorld(BaseWorld):
         spec = spec or r.choice(['T', 'P'])
         q = {'kind': kind, 'spec': spec, 'ids': ids, 'z': z, 'via': via or 'direct'}
         q['value'] = self.gen_value(r, spec, ids, z)
+        if r.random() < 0.35:
+            q['entry'] = 'solve'      # the public solve_Ty / solve_Py / solve_Tx / solve_Px entry points
         return q
 
     def gen_fault(self, r, nqueries):
@@ -533,6 +535,13 @@ class PointWorld(BaseWorld):
             v = m(q['value'], IDs=tuple(ids))
         else:
             zz = np.array(q['z'], float) if z is None else z
+            if q.get('entry') == 'solve':
+                m = getattr(obj, 'solve_' + {'T': 'P', 'P': 'T'}[q['spec']] + ('y' if q['kind'] == 'bubble' else 'x'))
+                val, comp = m(zz.copy(), q['value'])[:2]
+                if tuple(obj.IDs) != tuple(ids):
+                    self.fail('ids', f'solver object lists chemicals {obj.IDs}, asked for {ids}')
+                T, P = (q['value'], val) if q['spec'] == 'T' else (val, q['value'])
+                return Res(T, P, comp, zz)
             v = obj(zz.copy(), **kw)
         comp = v.y if q['kind'] == 'bubble' else v.x
         if tuple(v.IDs) != tuple(ids):
@@ -1445,6 +1454,8 @@ class SplitWorld(BaseWorld):
                 return False
             if ev.get('check') == 'scale' and not (1e-3 <= ev.get('k', 0) <= 1e3):
                 return False
+            if any(g in self.regions for g in self.region_of(ev)):
+                return False        # keeps the shrinker from drifting into a listed region (the generator diverts too)
             return True
         if op == 'sle':
             if self.family != 'sle' or not (SLE_T[0] <= ev.get('T', 0) <= SLE_T[1]):
@@ -1707,11 +1718,13 @@ class SplitWorld(BaseWorld):
             other = self.replay_twin(name, k=k, upto=upto)
             ob = {ph: v / k for ph, v in self.rows(other).items()}
             d0 = max(float(np.abs(ob['L'] - before['L']).max()), float(np.abs(ob['l'] - before['l']).max())) / F
-            if d0 > SCALE_TOL and self.cfg['method'] != 'pseudo equilibrium' \
-                    and 'C15-lle-optimizer-activity' in self.regions:
-                # the scaled replay already differs BEFORE the probed call: an earlier optimiser call gave
-                # another split at the other scale (KF-C15-3); nothing about this call can be concluded
-                self.stats['region:C15-lle-optimizer-activity'] += 1
+            reg0 = ('C15-lle-default-method-activity' if self.cfg['method'] == 'pseudo equilibrium'
+                    else 'C15-lle-optimizer-activity')
+            if d0 > SCALE_TOL and reg0 in self.regions:
+                # the scaled replay already differs BEFORE the probed call: an earlier call of a method that does
+                # not converge gave another split (or another labelling) at the other scale (KF-C15-1 / KF-C15-3);
+                # nothing about this call can be concluded
+                self.stats['region:' + reg0] += 1
                 other = None
             with faults.armed(ev.get('fault')):
                 try:
@@ -1743,22 +1756,29 @@ class SplitWorld(BaseWorld):
         the SAME feed at different flow scales on some inputs (no history involved).  True when brand-new
         streams with these contents, flashed at scale 1, at the probed scale and at scale 3.7, disagree
         among themselves - then a disagreement of an aged/cached/scaled run is not attributable to history."""
-        if self.cfg['method'] == 'pseudo equilibrium' or 'C15-lle-optimizer-activity' not in self.regions:
+        default = self.cfg['method'] == 'pseudo equilibrium'
+        region = 'C15-lle-default-method-activity' if default else 'C15-lle-optimizer-activity'
+        if region not in self.regions:
             return False
         F = float((before['L'] + before['l']).sum())
         outs = []
-        for kk in [1.0, 3.7] + ([k] if k else []):
-            tw = self.fresh_from({ph: v * kk for ph, v in before.items()}, T0, P0)
-            try:
-                with faults.disarmed():
-                    self.lle_call(tw, ev, use_cache=False)
-                outs.append({ph: v / kk for ph, v in self.rows(tw).items()})
-            except Exception:
-                return True
+        # the same contents as they are, and with the two liquid rows pooled into one (no trace amounts left in
+        # the other row): the listed methods do not converge, so even last-bit differences of the feed can flip
+        # the split they return (KF-C15-1 for the default method, KF-C15-3 for the optimisers)
+        pooled = {'L': before['L'] * 0., 'l': before['L'] + before['l']}
+        for base in (before, pooled):
+            for kk in [1.0, 3.7] + ([k] if k else []):
+                tw = self.fresh_from({ph: v * kk for ph, v in base.items()}, T0, P0)
+                try:
+                    with faults.disarmed():
+                        self.lle_call(tw, ev, use_cache=False)
+                    outs.append({ph: v / kk for ph, v in self.rows(tw).items()})
+                except Exception:
+                    return True
         for o in outs[1:]:
             d, _ = self.split_distance(outs[0], o, F, True)
             if d > SCALE_TOL:
-                self.stats['region:C15-lle-optimizer-activity'] += 1
+                self.stats['region:' + region] += 1
                 return True
         return False
 
